@@ -206,6 +206,16 @@ def _foreign_slot_reason(S: Scope, M: "SlotModel", e: ast.AST, depth=0) -> Optio
                     rb = S.binds(root)
                     if rb and all(x.kind == "param" for x in rb) and root.id not in M.param_maps:
                         return None         # a parameter of unknown content
+                    understood = (ast.List, ast.Tuple, ast.Dict, ast.Set, ast.ListComp, ast.DictComp, ast.SetComp, ast.GeneratorExp)
+
+                    def known(x):
+                        x = strip_wrappers(x) if x is not None else None
+                        if isinstance(x, understood):
+                            return True
+                        return isinstance(x, ast.Call) and isinstance(x.func, ast.Name) and x.func.id in (
+                            "enumerate", "range", "zip", "dict", "set", "map", "filter")
+                    if not rb or not all(x.kind == "value" and known(x.expr) for x in rb):
+                        return None         # e.g. the result of a (generator) function: content unknown
                     return f"an element of `{ast.unparse(base)}`, which is not derived from the slot list"
             elif b.kind == "aug":
                 return f"the hand-advanced counter `{e.id}`"
@@ -488,7 +498,7 @@ def r1_single_slot_list(ctx, rid):
                 and call.args and isinstance(call.args[0], ast.Name),
                 f"{rid}: `{norm(st)}`: unrecognised form of the slot-list computation")
     # nobody else produces slot numbers
-    others = [c for f in _cls(ctx).methods.values() if f.qualname != gen.qualname and f not in getattr(gen, "inlined_helper_funcs", ())
+    others = [c for f in _cls(ctx).methods.values() if f.qualname != gen.qualname
               for c in walk_shallow(f.node)
               if isinstance(c, ast.Call) and call_name(c) == "_auto_param_indices" and c is not call
               and not _spliced_into(ctx, gen, f)]
@@ -852,6 +862,9 @@ def _rank_sort_term(S: Scope, e: ast.AST, at):
         return ("sortbug", "sorted in reverse")
     if bug is None and not is_len_of(dflt, tab):
         dv = S.single_value(dflt)
+        if isinstance(dv, ast.UnaryOp) and isinstance(dv.op, ast.USub) and isinstance(dv.operand, ast.Constant) \
+                and isinstance(dv.operand.value, (int, float)):
+            dv = ast.Constant(value=-dv.operand.value)
         if isinstance(dv, ast.Constant) and isinstance(dv.value, (int, float)) and dv.value <= 0:
             bug = f"undeclared names get rank {dv.value} and are sorted to the front"
         elif not is_len_of(dv, tab):
